@@ -21,9 +21,10 @@ import (
 
 // WriteRec is one Write call made by the client on its socket.
 type WriteRec struct {
-	T    time.Duration // simulated time since the start of the run
-	Seq  uint64        // global event number
-	Data string
+	T     time.Duration // simulated time since the start of the run
+	Start time.Duration // when the Write call these bytes belong to was made (a call may be accepted in parts)
+	Seq   uint64        // global event number
+	Data  string
 }
 
 // Link is one simulated TCP connection.  The client holds *Conn; the harness
@@ -37,21 +38,23 @@ type Link struct {
 	s2cEOF bool
 	rdErr  error
 
-	c2s       []byte // written by the client, not yet read by the server
-	srvBuf    []byte // read by the server, not yet framed into lines
-	Writes    []WriteRec
-	AllC2S    []byte // everything the client ever wrote successfully
-	ClientEnd bool   // client called Close
-	closeN    int
-	rdl, wdl  time.Time // deadlines set by the client
+	c2s        []byte // written by the client, not yet read by the server
+	srvBuf     []byte // read by the server, not yet framed into lines
+	Writes     []WriteRec
+	AllC2S     []byte // everything the client ever wrote successfully
+	ClientEnd  bool   // client called Close
+	closeN     int
+	rdl, wdl   time.Time // deadlines set by the client
+	writeStart time.Duration
 
 	// fault plan (0 = never)
 	ReadErrAtOp  int
 	EOFAtOp      int
 	WriteErrAtOp int
 	ShortWrite   bool
-	Window       int // max bytes buffered towards the server; 0 = unbounded
-	ChunkMode    int // 0: as much as fits, 1: random prefix, 2: single bytes, 3: random small (1..8)
+	CloseErr     bool // Close() of a link the peer has already ended reports an error
+	Window       int  // max bytes buffered towards the server; 0 = unbounded
+	ChunkMode    int  // 0: as much as fits, 1: random prefix, 2: single bytes, 3: random small (1..8)
 	StallReads   bool
 	Opaque       bool // log sizes only (TLS: the bytes are random, the sizes are not)
 
@@ -183,6 +186,7 @@ func (c *Conn) Read(p []byte) (int, error) {
 func (c *Conn) Write(p []byte) (int, error) {
 	l := c.L
 	l.WritesN++
+	l.writeStart = l.S.Now()
 	if l.ClientEnd {
 		return 0, &net.OpError{Op: "write", Net: "sim", Err: ErrClosed}
 	}
@@ -244,7 +248,7 @@ func (c *Conn) Write(p []byte) (int, error) {
 func (l *Link) appendC2S(p []byte) {
 	l.c2s = append(l.c2s, p...)
 	l.AllC2S = append(l.AllC2S, p...)
-	l.Writes = append(l.Writes, WriteRec{T: l.S.Now(), Seq: l.S.Stamp(), Data: string(p)})
+	l.Writes = append(l.Writes, WriteRec{T: l.S.Now(), Start: l.writeStart, Seq: l.S.Stamp(), Data: string(p)})
 	if l.S.Tracing() {
 		if l.Opaque {
 			l.S.Logf("net%d write#%d %d bytes", l.ID, l.WritesN, len(p))
@@ -262,6 +266,13 @@ func (c *Conn) Close() error {
 	}
 	l.ClientEnd = true
 	l.S.Logf("net%d closed by client", l.ID)
+	if l.CloseErr && (l.s2cEOF || l.rdErr != nil) {
+		// the socket is closed all the same, but the close reports what it could
+		// not do any more (a TLS close_notify that cannot be written after the
+		// peer has gone, a pipe whose other end is closed)
+		l.S.Count("fault.close-reports-an-error")
+		return &net.OpError{Op: "close", Net: "sim", Err: ErrWrite}
+	}
 	return nil
 }
 
